@@ -59,8 +59,10 @@ fn di_strategy(with_hist: bool) -> BoxedStrategy<DiCase> {
 }
 
 fn simple_labels() -> Vec<Lab> {
-    // characters that need no XML escaping
-    pool().into_iter().filter(|l| l.parse_roundtrips() && !l.text().contains(['<', '>', '&', '"', '\''])).collect()
+    // characters that need no XML escaping; and no line breaks: the printed forms judged here
+    // (DOT, inspect, Debug) are line-oriented, a label with a line break in it would need
+    // escaping there and the parsers of this harness read those texts line by line
+    pool().into_iter().filter(|l| l.parse_roundtrips() && !l.text().contains(['<', '>', '&', '"', '\'', '\n', '\r'])).collect()
 }
 
 /// Concrete calls that build the graph of a case.
@@ -242,7 +244,7 @@ fn build_fan(case: &DiCase) -> (Cfg, Vec<Call>) {
     let cfg = Cfg { n, cap: gen::pick_cap(case.cap_sel).max(kids + 3) };
     let mut r = Runner::new(cfg);
     let mut calls = vec![];
-    let pool = pool();
+    let pool = simple_labels();
     for i in 0..=kids + 1 {
         push_valid(&mut r, &mut calls, Call::Add(i));
     }
